@@ -197,7 +197,20 @@ mod real {
         let built: Option<Result<Built, u64>> = util::catch(|| {
             let r: Result<MmapRegion<()>, MmapRegionError> = match kind {
                 0 => {
-                    let mut b = MmapRegionBuilder::<()>::new(size).with_mmap_prot(prot).with_mmap_flags(flags);
+                    // the last call of a setter decides: in half of the cases (chosen by the request itself) every
+                    // option is first set to a decoy value - all protection bits, other mapping flags, the other
+                    // hugetlbfs hint - and then to the requested one
+                    let twice = (size % 2 + prot as usize % 2 + flags as usize % 2 + huge as usize % 2) % 2 == 1;
+                    let mut b = MmapRegionBuilder::<()>::new(size);
+                    if twice {
+                        b = b
+                            .with_mmap_prot(libc::PROT_READ | libc::PROT_WRITE | libc::PROT_EXEC)
+                            .with_mmap_flags(libc::MAP_SHARED | libc::MAP_ANONYMOUS | libc::MAP_NORESERVE | libc::MAP_POPULATE);
+                        if huge != 0 {
+                            b = b.with_hugetlbfs(huge != 2);
+                        }
+                    }
+                    b = b.with_mmap_prot(prot).with_mmap_flags(flags);
                     if let Some(fo) = fo.clone() {
                         b = b.with_file_offset(fo);
                     }
